@@ -33,6 +33,16 @@
 static fiber_multi_signal_t ms;
 static volatile long tokens;
 
+
+/* fiber_t.scratch is shared by several mechanisms ("be sure mechanisms do not conflict"): an
+ * fd wait ended by close() really leaves (void*)-1 == FIBER_SIGNAL_READY_TO_WAKE there.  So
+ * before every wait the harness dirties the waiting fiber's own scratch with that value, by a
+ * store the instrumentation does not see (no event, no scheduling point): a wait that relied
+ * on scratch being NULL on entry would be woken before its context is saved. */
+VH_NOINSTR static void dirty_own_scratch(void) {
+  fiber_manager_get()->current_fiber->scratch = (void*)(intptr_t)-1;
+}
+
 static int try_take(void) {
   long v = __atomic_load_n(&tokens, __ATOMIC_ACQUIRE);
   while (v > 0) {
@@ -53,6 +63,7 @@ static void do_op(int t, const char* op) {
       vr_note("call take");
       while (!try_take()) {
         vr_note("call wait");
+        dirty_own_scratch();
         fiber_multi_signal_wait(&ms);
         vr_note("ret wait");
       }
@@ -70,6 +81,7 @@ static void do_op(int t, const char* op) {
       break;
     case 'W':
       vr_note("call wait");
+      dirty_own_scratch();
       fiber_multi_signal_wait(&ms);
       vr_note("ret wait");
       break;
@@ -116,6 +128,7 @@ VH_NOINSTR int main(int argc, char** argv) {
   int k = atoi(argv[1]);
   vh_parse(argv[2]);
   fiber_manager_init(k);
+  VH_DIRTY(ms);
   fiber_multi_signal_init(&ms);
   /* the (counter, head) pair is ONE 16-byte cell: counter prints as `ms`, head as `ms+8` */
   vr_reg(&ms, 16, "ms");
